@@ -2,7 +2,8 @@ import FeatherModel.Lemmas.TotalBase
 import FeatherModel.Model.TotalDyn
 
 /-!
-# C16 — `Dynamic` constants (after cb2ce34): no panic; every `with_capacity` is the length of an argument list
+# C16 — `Dynamic` constants (after cb2ce34 and the budget on the expansion): no panic; every `with_capacity` is the length of
+an argument list; the number of nodes built plus the budget left is the budget handed in
 -/
 
 namespace Total.Dyn
@@ -12,40 +13,58 @@ open TM
 /-- every bootstrap method has at most `B` arguments -/
 def ArgsLe (spec : Bsms) (B : Nat) : Prop := ∀ (i : Nat) (args : List Arg), spec[i]? = some args → args.length ≤ B
 
-theorem sumArgs_spec {S : List Nat} {B : Nat} {inner : Option (Nat → TM Nat)}
-    (hi : ∀ f, inner = some f → ∀ j, Spec S B (f j) (fun _ => True)) :
-    ∀ args, Spec S B (sumArgs inner args) (fun _ => True)
-  | [] => Spec.ret _ trivial
-  | a :: rest => by
+/-- what a resolver does with its budget `b`: the nodes it builds are paid one unit each -/
+def Paid (b : Nat) (r : Nat × Nat) : Prop := r.1 + r.2 = b
+
+theorem sumArgs_spec {S : List Nat} {B : Nat} {inner : Option (Nat → Nat → TM (Nat × Nat))}
+    (hi : ∀ f, inner = some f → ∀ j b, Spec S B (f j b) (Paid b)) :
+    ∀ args b, Spec S B (sumArgs inner args b) (Paid b)
+  | [], b => Spec.ret _ (by simp [Paid])
+  | a :: rest, b => by
     unfold sumArgs
     cases inner with
     | none => exact Spec.fail
     | some f =>
       dsimp only
-      refine Spec.bind (Q := fun _ => True) ?_ (fun _ _ => Spec.bind (sumArgs_spec hi rest) (fun _ _ => Spec.ret _ trivial))
+      refine Spec.bind (Q := Paid b) ?_ (fun xb hxb =>
+        Spec.bind (sumArgs_spec hi rest xb.2) (fun nb hnb => Spec.ret _ (by simp only [Paid] at *; omega)))
       cases a with
-      | int => exact Spec.ret _ trivial
-      | dyn j => exact hi f rfl j
+      | int =>
+        dsimp only
+        split
+        · exact Spec.fail
+        · exact Spec.ret _ (by simp only [Paid]; omega)
+      | dyn j => exact hi f rfl j b
 
-theorem resolveWith_spec {S : List Nat} {B : Nat} {spec : Bsms} (hB : ArgsLe spec B) {inner : Option (Nat → TM Nat)}
-    (hi : ∀ f, inner = some f → ∀ j, Spec S B (f j) (fun _ => True)) (i : Nat) :
-    Spec S B (resolveWith spec inner i) (fun _ => True) := by
+theorem resolveWith_spec {S : List Nat} {B : Nat} {spec : Bsms} (hB : ArgsLe spec B)
+    {inner : Option (Nat → Nat → TM (Nat × Nat))}
+    (hi : ∀ f, inner = some f → ∀ j b, Spec S B (f j b) (Paid b)) (i b : Nat) :
+    Spec S B (resolveWith spec inner i b) (Paid b) := by
   unfold resolveWith
   split
   · exact Spec.fail
-  · rename_i args hargs
-    refine Spec.bind (Spec.request (hB i args hargs)) (fun _ _ => ?_)
-    exact Spec.bind (sumArgs_spec hi args) (fun _ _ => Spec.ret _ trivial)
+  · rename_i hb
+    split
+    · exact Spec.fail
+    · rename_i args hargs
+      refine Spec.bind (Spec.request (hB i args hargs)) (fun _ _ => ?_)
+      exact Spec.bind (sumArgs_spec hi args (b - 1)) (fun nb hnb => Spec.ret _ (by simp only [Paid] at *; omega))
 
 theorem resolve_spec {S : List Nat} {B : Nat} {spec : Bsms} (hB : ArgsLe spec B) :
-    ∀ rem i, Spec S B (resolve spec rem i) (fun _ => True)
-  | 0, i => by
+    ∀ rem i b, Spec S B (resolve spec rem i b) (Paid b)
+  | 0, i, b => by
     unfold resolve
-    exact resolveWith_spec hB (fun f h => by simp at h) i
-  | rem + 1, i => by
+    exact resolveWith_spec hB (fun f h => by simp at h) i b
+  | rem + 1, i, b => by
     unfold resolve
-    exact resolveWith_spec hB (fun f h j => by
-      simp only [Option.some.injEq] at h; subst h; exact resolve_spec hB rem j) i
+    exact resolveWith_spec hB (fun f h j b' => by
+      simp only [Option.some.injEq] at h; subst h; exact resolve_spec hB rem j b') i b
+
+/-- the `dyn` op: no panic outside `S`, allocation requests below `B`, and at most `maxNodes` nodes -/
+theorem dynOp_spec {S : List Nat} {B : Nat} {spec : Bsms} (hB : ArgsLe spec B) :
+    Spec S B (dynOp spec) (fun n => n ≤ maxNodes) := by
+  unfold dynOp
+  exact Spec.bind (resolve_spec hB maxDepth 0 maxNodes) (fun nb h => Spec.ret _ (by simp only [Paid] at h; omega))
 
 theorem mem_le_sum : ∀ (l : List Nat) (a : Nat), a ∈ l → a ≤ l.sum
   | [], a, h => by simp at h
